@@ -452,7 +452,7 @@ func TestVerifC12Timeout(t *testing.T) {
 		}
 	}
 	rng := verifkit.Stream("c12timeout")
-	nr := verifkit.Scale(60000, 1000000)
+	nr := verifkit.Scale(60000, 4000000)
 	for i := 0; i < nr; i++ {
 		l := 1 + rng.Intn(12)
 		var sb strings.Builder
